@@ -297,7 +297,7 @@ pub fn spec() -> PropSpec {
     PropSpec {
         id: "C13",
         level: "exploration",
-        rule: "every RtmpMessage variant with fields from the u32 edge pool, all 9 user-control events with exactly the fields the specification gives them, 3 limit types, AMF0 argument lists from the AMF0 generator (bitwise equality), audio/video bytes 0..2000, Unknown only with type ids outside {1,2,3,4,5,6,8,9,15,17,18,20}; decoder direction from RefMsg-encoded bodies incl. the AMF3 aliases 15 / 17 (with and without leading 0x00); all 256 type ids x arbitrary bodies; chunk sizes around 2^31. Non-trivial = a field at a boundary value, an empty media body, an AMF0 list with a container, an alias, an unknown type id, or an exact-layout control body; distinct = distinct case",
+        rule: "(AMF0 arguments include chains of up to 128 nested containers and wide arrays; sub-check '...-after-a-refused-call' converts a message right after a half-way refused one on the same thread) every RtmpMessage variant with fields from the u32 edge pool, all 9 user-control events with exactly the fields the specification gives them, 3 limit types, AMF0 argument lists from the AMF0 generator (bitwise equality), audio/video bytes 0..2000, Unknown only with type ids outside {1,2,3,4,5,6,8,9,15,17,18,20}; decoder direction from RefMsg-encoded bodies incl. the AMF3 aliases 15 / 17 (with and without leading 0x00); all 256 type ids x arbitrary bodies; chunk sizes around 2^31. Non-trivial = a field at a boundary value, an empty media body, an AMF0 list with a container, an alias, an unknown type id, or an exact-layout control body; distinct = distinct case",
         assumptions: vec![
             "RefMsg transcribes RTMP 1.0 sections 5.4 / 6.2 / 7.1; AMF0 bodies are judged through RefAmf0 (see C12)",
             "control bodies longer than their layout are not judged (the specification gives exact lengths; the library ignores trailing bytes)",
